@@ -11,7 +11,7 @@ from vakt.rules import Eq, Any
 MODULE = 'Props.C10'
 THEOREMS = ['Vakt.C10.empty_inv', 'Vakt.C10.setattr_inv', 'Vakt.C10.setattr_reject_unchanged',
             'Vakt.C10.set_type_ignored', 'Vakt.C10.mixed_rejected', 'Vakt.C10.illtyped_rejected',
-            'Vakt.C10.context_nondict_rejected', 'Vakt.C10.type_meaning', 'Vakt.C10.history_inv', 'Vakt.C10.ctor_inv']
+            'Vakt.C10.context_nondict_rejected', 'Vakt.C10.iterator_counts_as_empty', 'Vakt.C10.type_meaning', 'Vakt.C10.history_inv', 'Vakt.C10.ctor_inv']
 FLOOR = {'quick': 500, 'thorough': 10000}
 FIELDS = ['subjects', 'resources', 'actions']
 
@@ -24,7 +24,20 @@ def kind_of(e):
     return 'o'
 
 
+ITER_KINDS = {}       # id(one-shot iterator) -> kinds of the elements it was created over (reset per case)
+
+
+def one_shot(rng, es):
+    """a one-shot iterator over the elements: a generator, iter(..) or map(..)"""
+    es = list(es)
+    it = pick(rng, [lambda: (e for e in es), lambda: iter(es), lambda: map(lambda e: e, es)])()
+    ITER_KINDS[id(it)] = 'I' + ''.join(kind_of(e) for e in es)
+    return it
+
+
 def fv_of(v):
+    if id(v) in ITER_KINDS:
+        return ITER_KINDS[id(v)]
     try:
         return 'K' + ''.join(kind_of(e) for e in v)
     except TypeError:
@@ -56,6 +69,8 @@ def gen_field_value(rng):
         rng.shuffle(es)
     else:
         return pick(rng, [5, None, 'abc', '', {'k': Eq(1)}, {}, 1.5, True, ('a', 'b'), (Eq(1),), ()])
+    if rng.random() < 0.08:
+        return one_shot(rng, es)
     return tuple(es) if rng.random() < 0.4 else es
 
 
@@ -104,6 +119,7 @@ def run(ctx):
     maxlen = 8 if ctx.tier == 'quick' else 25
     for _ in range(n):
         pool = []
+        ITER_KINDS.clear()
 
         def reg(v):
             for i, o in enumerate(pool):
@@ -120,7 +136,7 @@ def run(ctx):
             def coh():
                 v = gen_field_value(rng)
                 for _ in range(6):
-                    if fv_of(v) != 'Q' and set(fv_of(v)[1:]) <= {k}:
+                    if fv_of(v)[0] == 'K' and set(fv_of(v)[1:]) <= {k}:
                         return v
                     v = gen_field_value(rng)
                 return []
